@@ -1,7 +1,7 @@
 """one run of one configuration in a fresh interpreter; prints a digest of the whole observable
 outcome (every logger record, every agent notification, all price series, final holdings, and
 whether the caller's settings object was modified).
-usage: c07_worker.py <case.json> <mode>     mode ∈ plain | perturb:<n> | prior | sibling | same"""
+usage: c07_worker.py <case.json> <mode>     mode ∈ plain | perturb:<n> | prior | sibling | same | reuse"""
 import copy
 import hashlib
 import json
@@ -18,10 +18,11 @@ import runner_checks as rc  # noqa: E402
 import impl_runner  # noqa: E402
 
 
-def outcome(cfg, seed):
-    settings = copy.deepcopy(cfg)
+def outcome(cfg, seed, settings=None):
+    settings = copy.deepcopy(cfg) if settings is None else settings
     before = json.dumps(settings, sort_keys=True)
     run = rc.run_sim(settings, seed)
+    outcome.last_run = run
     h = hashlib.sha256()
     parts = {"error": run.error[:2] if run.error else None}
     recs, cbs = [], []
@@ -72,6 +73,16 @@ def main():
         outcome(case["sibling_config"], 777)
     if mode == "same":
         outcome(case["config"], case["seed"] + 1)
+    if mode == "reuse":
+        # the caller keeps one settings object and runs it twice: the second run must reproduce the
+        # first (its outcome is the one compared), and the object must still equal the configuration
+        first = outcome(case["config"], case["seed"])
+        obj = outcome.last_run.settings_after      # the very object the runner was handed in the first run
+        res = outcome(case["config"], case["seed"], settings=obj)
+        res["settings_modified"] = res["settings_modified"] or first["settings_modified"] or \
+            json.dumps(obj, sort_keys=True, default=str) != json.dumps(case["config"], sort_keys=True, default=str)
+        print(json.dumps(res))
+        return
     print(json.dumps(outcome(case["config"], case["seed"])))
 
 
